@@ -3,9 +3,9 @@ Line-protocol driver for C07.
 request : cmp <eco> <hexA> <hexB>           (eco: ecosystem name with ' ' written as '_'; "-" = empty string)
           tri <eco> <hexA> <hexB> <hexC>
 reply   : cmp → r=<a?b> rr=<b?a> ra=<a?a> rb=<b?b> acc=<xy> gv=<xy> kf=<xy> [spec=<lt|eq|gt>]
-                (semver-like, Debian/Ubuntu, PyPI, RubyGems, NuGet, CRAN: when both strings read as canonical
+                (semver-like, Debian/Ubuntu, PyPI, RubyGems, NuGet, CRAN, Red Hat: when both strings read as canonical
                  versions, spec = the verdict of the ecosystem's published rule, Spec/Semantic/*.lean)
-          tri → ab=<a?b> bc=<b?c> ac=<a?c> acc=<xyz> gv=<xyz> kf=<xyz>
+          tri → ab=<a?b> bc=<b?c> ac=<a?c> ba=<b?a> cb=<c?b> ca=<c?a> acc=<xyz> gv=<xyz> kf=<xyz>
           results are lt|eq|gt|err|panic, or `unsup` for an ecosystem `Parse` does not know.
           acc = Parse accepted the string; gv = grammar-valid (domain of the transitivity claim);
           kf = member of a known-finding class (Spec.Semantic.knownClass).
@@ -17,6 +17,7 @@ import Scalibr.Spec.Semantic.PyPI
 import Scalibr.Spec.Semantic.RubyGems
 import Scalibr.Spec.Semantic.NuGet
 import Scalibr.Spec.Semantic.Cran
+import Scalibr.Spec.Semantic.RedHat
 open Scalibr Scalibr.Semantic Scalibr.Wire
 
 def decodeStr (h : String) : Option (List Char) :=
@@ -59,6 +60,10 @@ def specFields (f : Fam) (a b : List Char) : String :=
     match CranSpec.specParse a, CranSpec.specParse b with
     | some x, some y => specStr (CranSpec.specCmp x y)
     | _, _ => ""
+  | .redhat =>
+    match RpmSpec.specParse a, RpmSpec.specParse b with
+    | some x, some y => specStr (RpmSpec.specCmp x y)
+    | _, _ => ""
   | _ => ""
 
 def handle (line : String) : String :=
@@ -78,13 +83,13 @@ def handle (line : String) : String :=
     match decodeStr ha, decodeStr hb, decodeStr hc with
     | some a, some b, some c =>
       match dispatch (ecoName eco) with
-      | none => "ab=unsup bc=unsup ac=unsup acc=000 gv=000 kf=000"
+      | none => "ab=unsup bc=unsup ac=unsup ba=unsup cb=unsup ca=unsup acc=000 gv=000 kf=000"
       | some f =>
         let F := f.family
         let pa := F.parse a
         let pb := F.parse b
         let pc := F.parse c
-        s!"ab={(F.cmpParsed pa pb).str} bc={(F.cmpParsed pb pc).str} ac={(F.cmpParsed pa pc).str} {flags f [a, b, c]}"
+        s!"ab={(F.cmpParsed pa pb).str} bc={(F.cmpParsed pb pc).str} ac={(F.cmpParsed pa pc).str} ba={(F.cmpParsed pb pa).str} cb={(F.cmpParsed pc pb).str} ca={(F.cmpParsed pc pa).str} {flags f [a, b, c]}"
     | _, _, _ => "bad-op"
   | _ => "bad-op"
 
